@@ -23,6 +23,7 @@ func genXCase(t *rapid.T, free bool) XCase {
 		}
 		c.Programs = append(c.Programs, p)
 	}
+	c.NoCB = rapid.IntRange(0, 3).Draw(t, "noCallback") == 0
 	if free {
 		c.FailPct = rapid.SampledFrom([]int{0, 20, 50}).Draw(t, "failpct")
 		c.Yields = rapid.IntRange(0, 4).Draw(t, "yields")
@@ -38,6 +39,9 @@ func genXCase(t *rapid.T, free bool) XCase {
 
 func recordC09(c XCase, info XInfo, mode string) {
 	cl := []string{"mode:" + mode}
+	if c.NoCB {
+		cl = append(cl, "cache_without_delete_callback")
+	}
 	if info.Overlap {
 		cl = append(cl, "two_workers_in_getorcreate_of_one_key")
 	}
